@@ -160,6 +160,17 @@ add('C05', 'fault_enumeration',
     'DESIGN.md 3 C05', 'Oracle ref/sighash.py + ref/secp256k1.py; nonce owned (props/eckeys.py); digest collisions ignored.',
     'exhaustive single-edit fault enumeration over sign-edit-verify histories against a reference model')
 
+add('C09', 'model_checking',
+    'Explicit-state BFS over histories on real objects: world = one mutable transaction (2 mutable inputs with mutable outpoints, 1 '
+    'output) + up to 2 (3) derived objects; events = 16 field/list edits on any live mutable transaction, 12 copy kinds (from_tx, '
+    'constructor, deserialise, CBlock, sub-object copies, mutable copies), compute (GetTxid/GetHash/hash()/==) and use (4 signature '
+    'hashes + VerifyScript) on any object; depth 3 (4). Every node is rebuilt by replaying its history on fresh objects; in every '
+    'state every live object\'s serialisation, identifiers, hash() and == equal the reference model (plain dicts, deep-copied at copy '
+    'events) and every slot of every immutable object (and its sub-objects) rejects setattr/delattr. Dedup key = models + alias graph '
+    'of real sub-objects + cache-population flags. Plus the complete family copy . compute . edit . copy . compute . use . edit.',
+    'DESIGN.md 3 C09', 'Reference model ref/wire.py on nested dicts. Key soundness: models, aliasing and cache presence are everything the library reads.',
+    'explicit-state breadth-first search over operation histories with history replay on fresh real objects and a reference model')
+
 NOT_YET = 'check not yet built in this revision of /verif (planned, see DESIGN.md section 3)'
 
 
